@@ -59,7 +59,7 @@ def run(tier, mode):
             t = G.any_text(r)
         texts.append(t)
         cfg = rand_config(r) if i % 2 else ''
-        src = r.choice([None, 'book 12', 7])
+        src = r.choice([None, 'book 12', 7, 0, '', False, (1, 'b')])     # any tag, falsy ones included (row 0 of an enumeration)
         d = H.call(lambda: pytrs.PLSSDesc(t, config=cfg, source=src))
         n_or += 1
         if isinstance(d, H.Exn):
